@@ -3266,9 +3266,9 @@ class UTPM(Ring, RawAlgorithmsMixIn):
         K = [int(numpy.prod(d2shp[::-1][:k])) for k in range(1+len(d2shp))][::-1]
         for i in range(K[0]):
             # convert i into multi-index
-            m = numpy.array([(i/K[j+1]) % d2shp[j] for j in range(len(d2shp))])
-            # create slice of B
-            s = [slice(A2shp[k]*m[k], A2shp[k]*(m[k]+1)) for k in range(len(m))]
+            m = numpy.array([(i//K[j+1]) % d2shp[j] for j in range(len(d2shp))])
+            # create slice of B (integer bounds, as an index tuple)
+            s = tuple(slice(int(A2shp[k]*m[k]), int(A2shp[k]*(m[k]+1))) for k in range(len(m)))
             Abar += Bbar[s]
 
         return Abar
